@@ -43,6 +43,21 @@ func writePhase(x *explore.Ctx, cfg WConfig, prog int, tier string, mask *MaskRe
 	if wpOnEnv != nil {
 		wpOnEnv(e)
 	}
+	// using a message writer after its Close (a second Close, a late Write) must fail and
+	// must not put anything on the wire
+	if late := x.Choose(3, "use-writer-after-close"); late > 0 {
+		e.AfterClose = func(w io.WriteCloser) {
+			n0 := len(e.NC.Out)
+			var err error
+			if late == 1 {
+				err = e.callQuiet("late:Close", func() error { return w.Close() }).Err
+			} else {
+				err = e.callQuiet("late:Write", func() error { _, err := w.Write([]byte("late")); return err }).Err
+			}
+			x.Check(err != nil, "C01:closed-writer-usable", "use of a message writer after Close returned nil (variant %d)", late)
+			x.Check(len(e.NC.Out) == n0, "C02:closed-writer-wrote", "use of a message writer after Close wrote %d bytes", len(e.NC.Out)-n0)
+		}
+	}
 	levels := levelsOf(tier)
 	var n int
 	if cfg.SizeIdx > 0 {
